@@ -235,7 +235,7 @@ def run(ck, tier):
     paths = build("asan")
     reftool = build_ref()["reftool"]
     sc = getattr(ck, "scale", 1.0)
-    n = int((150 if tier == "quick" else 4000) * sc)
+    n = int((300 if tier == "quick" else 4000) * sc)
     common.pmap(lambda i: run_case(ck, paths, reftool, i), range(n), workers=12)
     ck.rule = ("(every fourth case: a duplicated sequence of 300..2400 residues with short non-contained near-fragments of it and/or relatives placed at edit distances "
                "64/128/255/256/257/512/768/1024 from it, incl. low-complexity) families of 2..99 sequences with 1..4 duplicated members of multiplicity 2..6 at random positions under distinct names (plus near-duplicates "
